@@ -679,6 +679,15 @@ fn call_server(c: &ServerCase, lines: &[Vec<u8>]) -> Result<(ServerAnswer, Share
                         let (mut a, mut s) = (EnabledCompressionEncodings::default(), EnabledCompressionEncodings::default());
                         accept.iter().for_each(|e| a.enable(e.tonic()));
                         send.iter().for_each(|e| s.enable(e.tonic()));
+                        // widen both sets to everything and narrow them again with pop(): "remove the last
+                        // encoding" must undo exactly the enables that came after the configured ones
+                        for set in [(&mut a, &accept), (&mut s, &send)] {
+                            let extra: Vec<Enc> = ALL_ENC.iter().copied().filter(|e| !set.1.contains(e)).collect();
+                            extra.iter().for_each(|e| set.0.enable(e.tonic()));
+                            for _ in 0..extra.len() {
+                                let _ = set.0.pop();
+                            }
+                        }
                         grpc = grpc.apply_compression_config(a, s);
                     } else {
                         for e in &accept {
